@@ -19,6 +19,10 @@ use crate::{
 };
 
 fn key_mods(rng: &mut Rng) -> (Option<u32>, rosu_pp::model::mods::GameMods, String) {
+    if rng.chance(1, 6) {
+        // 8K is the only key count with a special column
+        return (Some(8), Difficulty::new().mods(KEYS[7]).inspect().mods, "8K (legacy bits)".to_string());
+    }
     match rng.below(12) {
         0..=8 => {
             let i = rng.below(9) as usize;
@@ -63,11 +67,15 @@ fn add_green_lines_at_sliders(text: &str, rng: &mut Rng) -> String {
 }
 
 pub fn case(rng: &mut Rng, max_objects: usize) -> String {
+    // stacked circles with rich hit sounds drive the mania pattern generator's REVERSE /
+    // FORCE_STACK branches (special column in 8K)
+    let shape = if rng.chance(1, 4) { Some(crate::gen::Shape::Stacked) } else { None };
     let mut gm = gen_any(
         rng,
         &GenOpts {
             mode: Some(0),
             max_objects,
+            shape,
             ..Default::default()
         },
     );
@@ -152,6 +160,16 @@ pub fn case(rng: &mut Rng, max_objects: usize) -> String {
                 let mut cols = Vec::new();
                 for h in &conv.hit_objects {
                     let c = rosu_pp::verif::mania::column(h.pos.x, cs);
+                    // `column` clamps to the last column, so the raw quotient is checked as well:
+                    // a note at x = 512 would be column `cs` of `cs`
+                    let raw = (h.pos.x / (512.0 / cs)).floor();
+                    if !(raw < cs) {
+                        fails.push(format!(
+                            "mania note at x={} is in (unclamped) column {raw}, not below the key count {cs}",
+                            h.pos.x
+                        ));
+                        break;
+                    }
                     if (c as f32) >= cs || h.pos.x < 0.0 || h.pos.x > 512.0 || h.pos.x.fract() != 0.0 {
                         fails.push(format!(
                             "mania note at x={} lands in column {c} of {cs} (or is off the integer grid)",
